@@ -326,7 +326,7 @@ class HalfRankComponent(OutputWarper):
   def warp(self, labels_arr: types.Array) -> types.Array:
     """See base class."""
     labels_arr = _validate_labels(labels_arr)
-    if labels_arr.size == 1:
+    if labels_arr.size == 1 or np.isnan(labels_arr).all():
       return labels_arr
     labels_arr = labels_arr.flatten()
     # Compute median, unique labels, and ranks.
